@@ -20,7 +20,7 @@ from hypothesis import strategies as st
 from vk.core import exc_site
 from vk.engine import hyp_search, parallel
 from vk.strategies import valspec as V
-from vk.strategies.valspec import B, D, F, INF, NAN, NINF, O, T, enum_spec
+from vk.strategies.valspec import B, F, INF, NAN, T, enum_spec
 from xknx import XKNX
 from xknx.cemi import CEMIFrame, CEMILData, CEMIMessageCode
 from xknx.devices import (
@@ -91,8 +91,9 @@ LEVEL_NOTE = (
     "reader only. Ranges for the must-reject relation are the types' own declared value_min/value_max."
 )
 RULE = (
-    "targets = every RemoteValue class (constructor table, all 230 DPTs for the generic ones), device setters, "
-    "group_value_write/response with and without DPT, MCP send_group_value_write; values = generic wide grid "
+    "targets = every RemoteValue class (constructor table), device setters, group_value_write/response with and "
+    "without DPT (all 230 DPTs), MCP send_group_value_write, RemoteValueSensor/Numeric (one DPT per distinct "
+    "encoder implementation at the quick tier, all 230 at the thorough tier); values = generic wide grid "
     "(ints around 0/63/255/2^k, negatives, floats incl. inf/nan, None, str, bytes, lists/tuples incl. nested, "
     "dicts) + per-type boundary grid (min/max, +/- one and two steps, half steps, per-field perturbations of "
     "complex types in dict and object form) enumerated once each (distinct by construction), then seeded "
@@ -112,8 +113,13 @@ ASSUMPTIONS = [
     "serialise' is checked, because no real caller passes them and the only complaint would be the exception type.",
     "Unknown value_type names / invalid group addresses are not in the domain (they have their own declared errors).",
     "must-reject relation: a number more than one resolution step outside the declared range "
-    "(DPTNumeric value_min/value_max, RemoteValueScaling range_from/range_to, RemoteValueRaw payload length) "
-    "cannot be represented and has to be rejected; values within one step of a bound are not judged (rounding).",
+    "(DPTNumeric value_min/value_max, RemoteValueScaling range_from/range_to, RemoteValueRaw payload length, "
+    "0..63 for a raw int) that is nevertheless accepted must at least be what was queued: the queued payload is "
+    "decoded by the same type and has to equal the value within 1.5 steps / 1 %; otherwise the value was silently "
+    "clamped or wrapped. An accepted value that does read back (declared range narrower than the encoder) is only "
+    "counted - range declarations are C09's subject. Values within one step of a bound are not judged (rounding).",
+    "Cover.set_position without a position address is not offered inf/nan: there the value goes to the travel "
+    "calculator (C40), not into a payload.",
     "An empty byte list offered without DPT is treated as unrepresentable: its frame is read back as a 6-bit 0.",
 ]
 
@@ -1068,7 +1074,7 @@ def run(ctx) -> None:
     ctx.notes["target_groups"] = len({t.group for t in ts})
     nshards = 16
     parallel(ctx, _grid_shard, [(nshards, ctx.quick)] * nshards)
-    parallel(ctx, _hyp_shard, [(ctx.n(1500, 40000),)] * nshards)
+    parallel(ctx, _hyp_shard, [(ctx.n(1000, 20000),)] * nshards)
 
 
 def replay(ctx, case) -> None:
